@@ -3,27 +3,31 @@
 (* Behaviour generator for Discov.tla (spec -> code replay, property C15). *)
 (*                                                                         *)
 (* A behaviour starts from any initial content of the model etcd; its      *)
-(* first step attaches a subscriber (nothing is observable before), then   *)
-(* up to MaxLen - 1 further steps of Discov!Next follow, with at most      *)
-(* MaxDisc disconnections and MaxReload reloads.  Every step carries, for  *)
-(* every attached subscriber, the set of value sets Values() may show and  *)
-(* whether its listeners must have run - all computed by Discov.tla.       *)
+(* first step attaches a subscriber (nothing is observable before) - after *)
+(* MinFail..MaxFail attempts that fail because the registry cannot be      *)
+(* reached yet (Discov!AttachFail) - then further steps of Discov!Next     *)
+(* follow up to MaxLen steps in all, with at most MaxDisc disconnections   *)
+(* and MaxReload reloads.  Every step carries, for every attached          *)
+(* subscriber, the set of value sets Values() may show and whether its     *)
+(* listeners must have run - all computed by Discov.tla.                   *)
 (***************************************************************************)
 EXTENDS Discov, Json
 
-CONSTANTS MaxLen, MaxDisc, MaxReload
+CONSTANTS MaxLen, MaxDisc, MaxReload, MinFail, MaxFail
 
-VARIABLES hist, ndisc, nrel
+VARIABLES hist, ndisc, nrel, nfail
 
-gvars == <<vars, hist, ndisc, nrel>>
+gvars == <<vars, hist, ndisc, nrel, nfail>>
 
-GInit == Init /\ hist = <<[op |-> "init", keys |-> etcd]>> /\ ndisc = 0 /\ nrel = 0
+GInit == Init /\ hist = <<[op |-> "init", keys |-> etcd]>> /\ ndisc = 0 /\ nrel = 0 /\ nfail = 0
 
 Step ==
   \/ /\ attached = {}
-     /\ \E s \in Subs : Attach(s)
+     /\ \/ nfail >= MinFail /\ (\E s \in Subs : Attach(s)) /\ UNCHANGED nfail
+        \/ nfail < MaxFail /\ (\E s \in Subs : AttachFail(s)) /\ nfail' = nfail + 1
      /\ UNCHANGED <<ndisc, nrel>>
   \/ /\ attached # {}
+     /\ UNCHANGED nfail
      /\ \/ (\E k \in Keys : Put(k) \/ Delete(k)) /\ UNCHANGED <<ndisc, nrel>>
         \/ (\E s \in Subs : Attach(s)) /\ UNCHANGED <<ndisc, nrel>>
         \/ ndisc < MaxDisc /\ Disconnect /\ ndisc' = ndisc + 1 /\ UNCHANGED nrel
